@@ -6,7 +6,8 @@ import vcheck, vdrv
 
 
 class Mod:
-    def __init__(self, pkg, imports=(), fn=None, main=False):
+    def __init__(self, pkg, imports=(), fn=None, main=False, late_pkg=False):
+        self.late_pkg = late_pkg  # the package line is written AFTER the imports (grammar: [packageDecl] {importDecl} ...): a header error
         self.pkg = pkg            # list of parts or None (no package line)
         self.imports = list(imports)  # list of (parts, wildcard)
         self.fn = fn              # unique marker function name
@@ -14,10 +15,12 @@ class Mod:
 
     def text(self):
         s = ""
-        if self.pkg is not None:
+        if self.pkg is not None and not self.late_pkg:
             s += "package %s;\n" % ".".join(self.pkg)
         for parts, wild in self.imports:
             s += "import %s%s;\n" % (".".join(parts), ".*" if wild else "")
+        if self.pkg is not None and self.late_pkg:
+            s += "package %s;\n" % ".".join(self.pkg)
         if self.fn:
             s += "function %s() -> int { return 1; }\n" % self.fn
         if self.main:
@@ -90,6 +93,8 @@ def model_load(tree, entry, search, cwd, symlinks=None):
             raise SemErr("entry missing")
         stack.append(c)
         m = files[c]
+        if m.late_pkg and m.pkg is not None and m.imports:
+            raise SemErr("package after import")     # a malformed header: the file is not a module at all (Parse diagnostic)
         parent = posixpath.dirname(c)
         for parts, wild in m.imports:
             if wild:
@@ -119,6 +124,8 @@ def model_load(tree, entry, search, cwd, symlinks=None):
         obj = resolve_file(["bloch", "lang", "Object"], posixpath.dirname(canon(entry)))
         if obj:
             load(obj)
+            if (files[obj].pkg or []) != ["bloch", "lang"]:
+                raise SemErr("package mismatch")        # the implicit import is held to the rule of a written one
         load(entry)
     except SemErr as e:
         return ("semantic", str(e))
@@ -255,6 +262,17 @@ def fam_missing():
     yield ("default-pkg-wrong", {"main.bloch": Mod(None, [(["X"], False)], fn="f_main", main=True), "X.bloch": Mod(["z"], [], fn="f_X")}, "main.bloch", [], ".", False, {})
     yield ("self-import", {"g/main.bloch": Mod(["g"], [(["g", "main"], False)], fn="f_main", main=True)}, "g/main.bloch", ["."], ".", False, {})
     yield ("object-root", {"main.bloch": Mod(None, [], fn="f_main", main=True), "bloch/lang/Object.bloch": Mod(["bloch", "lang"], [], fn="f_obj")}, "main.bloch", [], ".", False, {})
+    # (hunt C19/d1) a package line written after the imports, in the entry file and in an imported module whose package check would
+    # otherwise pass
+    yield ("late-package-entry", {"g/main.bloch": Mod(["g"], [(["g", "U"], False)], fn="f_main", main=True, late_pkg=True), "g/U.bloch": Mod(["g"], [], fn="f_U")}, "g/main.bloch", ["."], ".", False, {})
+    yield ("late-package-imported", {"main.bloch": Mod(None, [(["g", "U"], False)], fn="f_main", main=True), "g/U.bloch": Mod(["g"], [(["g", "V"], False)], fn="f_U", late_pkg=True), "g/V.bloch": Mod(["g"], [], fn="f_V")}, "main.bloch", [], ".", False, {})
+    yield ("late-package-wildcard", {"main.bloch": Mod(None, [(["g"], True)], fn="f_main", main=True), "g/U.bloch": Mod(["g"], [(["g", "V"], False)], fn="f_U", late_pkg=True), "g/V.bloch": Mod(["g"], [], fn="f_V")}, "main.bloch", [], ".", False, {})
+    # (hunt C19/d5) the implicitly loaded root Object with a wrong / missing package line, alone and next to an explicit import of it
+    for pk in (["wrong", "pkg"], None, ["bloch"], ["bloch", "lang", "x"]):
+        tag = ".".join(pk) if pk else "none"
+        yield ("object-root-wrong-package:" + tag, {"main.bloch": Mod(None, [], fn="f_main", main=True), "sp/bloch/lang/Object.bloch": Mod(pk, [], fn="f_obj")}, "main.bloch", ["sp"], ".", False, {})
+        yield ("object-root-wrong-package-explicit:" + tag, {"main.bloch": Mod(None, [(["bloch", "lang", "Object"], False)], fn="f_main", main=True), "sp/bloch/lang/Object.bloch": Mod(pk, [], fn="f_obj")}, "main.bloch", ["sp"], ".", False, {})
+        yield ("object-root-wrong-package-local:" + tag, {"main.bloch": Mod(None, [], fn="f_main", main=True), "bloch/lang/Object.bloch": Mod(pk, [], fn="f_obj")}, "main.bloch", [], ".", False, {})
     yield ("object-root-sp", {"app/main.bloch": Mod(None, [], fn="f_main", main=True), "sp/bloch/lang/Object.bloch": Mod(["bloch", "lang"], [], fn="f_obj_sp"),
                               "app/bloch/lang/Object.bloch": Mod(["bloch", "lang"], [], fn="f_obj_app")}, "app/main.bloch", ["sp"], "app", False, {})
 
@@ -291,7 +309,7 @@ def _one(case):
     else:
         if st == "ok":
             probs.append("expected a Semantic diagnostic (%s) but the program was accepted with functions %s" % (exp[1], rec.get("functions")))
-        elif st != "semantic":
+        elif st != "semantic" and not (exp[1] == "package after import" and st == "parse"):
             probs.append("expected a Semantic diagnostic (%s) but got category %s: %s" % (exp[1], st, rec.get("msg")))
     state = (tuple(rec.get("load_order", [])), tuple(rec.get("cache", [])), tuple(rec.get("stack", [])))
     return fam, probs, desc, state, exp[0] + ":" + (exp[1] if exp[0] != "ok" else "")
